@@ -165,6 +165,14 @@ try:
         obs["out"] = [str(x.value) for x in out]
 except NotImplementedError as e:
     obs["raised"], obs["exc"] = True, "NotImplementedError"
+# subset-sum hash in the field in effect: its first coefficients and the plain hash of the all-ones vector
+obs["ggh"], obs["gghsum"] = [], ""
+try:
+    import pysnark.ggh_hash as gh
+    obs["ggh"] = [str(gh.SHA512_prng(i)) for i in range(16)]
+    obs["gghsum"] = str(gh.ggh_hash_plain([1] * 16))
+except Exception as e:
+    obs["ggh"], obs["gghsum"] = [], "error:" + type(e).__name__
 print("OBS " + json.dumps(obs))
 '''
 
@@ -246,12 +254,17 @@ def main(tier):
         for o in obs:
             setid = "none" if o["raised"] else setids.get(o["rc0"], "unknown")
             facts.append({"kind": "params", "backend_name": o["backend_name"] or "", "modulus": limbs(int(o["modulus"])), "raised": o["raised"], "setid": setid,
-                          "RF": o["RF"], "RP": o["RP"], "a": o["a"], "pre": o["pre"], "env": o["env"], "out": "", "output": [], "vecname": ""})
+                          "RF": o["RF"], "RP": o["RP"], "a": o["a"], "pre": o["pre"], "env": o["env"], "out": "", "output": [], "vecname": "", "expect": []})
+            if o.get("ggh"):
+                pm = int(o["modulus"])
+                facts.append({"kind": "ggh", "backend_name": o["backend_name"] or "", "modulus": limbs(pm), "raised": False, "setid": "", "RF": 0, "RP": 0, "a": 0,
+                              "pre": o["pre"], "env": o["env"], "out": "ok", "output": [limbs(int(x)) for x in o["ggh"]] + [limbs(int(o["gghsum"]))],
+                              "vecname": "", "expect": [limbs(sha_coef(i, pm)) for i in range(16)] + [limbs(sum(sha_coef(i, pm) for i in range(16)) % pm)]})
             if o["out"]:
                 vn = {"zkinterface": "x5_254", "zkifbellman": "x5_255"}.get(o["backend_name"])
                 if vn:
                     facts.append({"kind": "vector", "backend_name": o["backend_name"], "modulus": limbs(int(o["modulus"])), "raised": False, "setid": setid, "RF": 0, "RP": 0, "a": 0,
-                                  "pre": o["pre"], "env": o["env"], "out": "ok", "output": [limbs(int(x)) for x in o["out"]], "vecname": vn})
+                                  "pre": o["pre"], "env": o["env"], "out": "ok", "output": [limbs(int(x)) for x in o["out"]], "vecname": vn, "expect": []})
         run.evaluations += len(facts)
         for f in facts:
             run.nontrivial.add(("sel", json.dumps(f["pre"]), f["env"], f["kind"]))
